@@ -138,6 +138,11 @@ func (p *Plenc) CodecForTypeRegistry(registry plenccodec.CodecRegistry, typ refl
 			}
 			c = plenccodec.WTFixedSliceWrapper{BaseSliceWrapper: bs}
 		case plenccore.WTLength:
+			if isProtoSlice(subc) {
+				// The elements would be written as repeated fields, which
+				// loses the boundaries between the inner slices
+				return nil, fmt.Errorf("slices of slices of structs or strings are not supported")
+			}
 			if p.ProtoCompatibleArrays || tag == "proto" {
 				// When writing we just want to repeat the encoding of an
 				// individual element within the slice as if it was a separate
@@ -260,4 +265,19 @@ func (p *Plenc) CodecForTypeRegistry(registry plenccodec.CodecRegistry, typ refl
 
 	verifYield(plenccodec.VerifYieldBeforeStore)
 	return registry.StoreOrSwap(typ, tag, c), nil
+}
+
+// isProtoSlice reports whether c is a ProtoSliceWrapper, or a pointer to one.
+// These are written as repeated fields rather than a single field.
+func isProtoSlice(c plenccodec.Codec) bool {
+	for {
+		switch cc := c.(type) {
+		case plenccodec.ProtoSliceWrapper:
+			return true
+		case plenccodec.PointerWrapper:
+			c = cc.Underlying
+		default:
+			return false
+		}
+	}
 }
